@@ -69,6 +69,7 @@ class _Reader(io.RawIOBase):
                     raise Deadlock(f"{side}: would block reading while {peer} is blocked reading too")
                 hub.waiting[side] = True
                 hub.need[side] = n
+                hub.cv.notify_all()  # lets wait_quiescent() observers re-evaluate
                 try:
                     hub.cv.wait()
                 finally:
@@ -196,6 +197,27 @@ class MemTransport:
     @property
     def pending_in(self) -> int:
         return len(self.hub.buf[self.side])
+
+
+def wait_reply_or_idle(client: "MemTransport", timeout: float = 30.0) -> str:
+    """Block until the client has inbound bytes ("reply"), the server closed ("closed"), or the server is
+    blocked reading with nothing to read ("idle": it will write nothing until the client writes).  Free-running
+    mode only.  The time-out is a harness guard, not an oracle: expiry raises."""
+    hub = client.hub
+
+    def ready() -> bool:
+        return bool(hub.buf["client"]) or hub.wclosed["server"] or (
+            hub.waiting["server"] and len(hub.buf["server"]) < hub.need["server"] and not hub.wclosed["client"]
+        )
+
+    with hub.cv:
+        if not hub.cv.wait_for(ready, timeout):
+            raise TimeoutError("wait_reply_or_idle: neither reply nor idle server")
+        if hub.buf["client"]:
+            return "reply"
+        if hub.wclosed["server"]:
+            return "closed"
+        return "idle"
 
 
 def make_mem_pair(capture: bool = False) -> tuple[MemTransport, MemTransport]:
